@@ -270,8 +270,20 @@ class PathCtx:
             if not isinstance(d, bool):
                 raise RuntimeError("decision replay out of sync (expected bool)")
         else:
-            rt = self._feasible(cond)
-            rf = 'sat' if rt == 'unsat' else self._feasible(z3.Not(cond))
+            # light checks of both sides first: if one side contradicts the path condition
+            # (+ linear axioms) the other one is taken without a full query
+            lt = lf = None
+            if self.n_heavy:
+                lt, _ = self._check(cond, light=True)
+                if lt != 'unsat':
+                    lf, _ = self._check(z3.Not(cond), light=True)
+            if lt == 'unsat':
+                rt, rf = 'unsat', 'sat'
+            elif lf == 'unsat':
+                rt, rf = 'sat', 'unsat'
+            else:
+                rt = self._feasible(cond)
+                rf = 'sat' if rt == 'unsat' else self._feasible(z3.Not(cond))
             t = rt != 'unsat'
             f = rf != 'unsat'
             if rt == 'unknown' or rf == 'unknown':
